@@ -236,64 +236,133 @@ func vLockstep(r *vRng, kind int) (coq string, nontrivial bool, cls string) {
 }
 
 // ---- (b) stress ---------------------------------------------------------------------------------
+//
+// Stream of connection id with kind k: byte 0 is the kind letter, byte 8 is 'w' for kind 'W',
+// every other byte is the high/low byte of the id.  Routes (same shape for Server and listener):
+//
+//   r0  kind 'A'  terminal (Server) / not present (listener)
+//   r1  kind 'W'  non-terminal: consumes 8 bytes, continues with cx.Wrap(pass-through conn): the
+//                 wrapped Connection starts without a buffer and is matched AGAIN (prefetch through
+//                 the temporary pooled chunk)
+//   r2  second stage, matches a stream starting with 'w' (only what is left of a 'W' stream does)
+//   r3  kind 'B'  terminal
+//   fallback      kinds 'Z' (Server: recorded; listener: handed over)
+//
+// Every client sends 4 bytes, pauses, then the rest, so that every connection goes through a
+// "needs more" pass while the others are being matched.  Checked: every byte seen by a matcher
+// (its reads and the MatchingBytes window), by the handlers and by the wrapped listener's consumer
+// is the connection's own, and every connection is handled by the route its own stream selects.
 
 type vStressConn struct {
 	net.Conn
-	id int
+	id   int
+	kind byte
 }
+
+type vPass struct{ net.Conn } // reads through the wrapped *Connection
 
 const vStressNeed = 8
 
-type vStressMatcher struct{ bad *atomic.Int64 }
-
-func vStressByte(id, i int) byte {
-	if i == 0 {
-		return 'T'
+func vStressByte(id int, kind byte, i int) byte {
+	switch {
+	case i == 0:
+		return kind
+	case i == 8 && kind == 'W':
+		return 'w'
+	case i%2 == 1:
+		return byte(id>>8) | 0x80
 	}
-	if i%2 == 1 {
-		return byte(id >> 8)
-	}
-	return byte(id)
+	return byte(id) | 0x80
 }
 
-func vStressStream(id, n int) []byte {
+func vStressStream(id int, kind byte, n int) []byte {
 	b := make([]byte, n)
 	for i := range b {
-		b[i] = vStressByte(id, i)
+		b[i] = vStressByte(id, kind, i)
 	}
 	return b
 }
 
-// first index at which b (the stream from offset off on) is not connection id's stream
-func vStressCheck(id, off int, b []byte) int {
+// first index at which b (the stream from offset off on) is not the connection's stream
+func vStressCheck(id int, kind byte, off int, b []byte) int {
 	for i := range b {
-		if b[i] != vStressByte(id, off+i) {
+		if b[i] != vStressByte(id, kind, off+i) {
 			return i
 		}
 	}
 	return -1
 }
 
+// who is behind cx and at which stream offset its buffer starts (8 once wrapped by r1)
+func vStressWho(cx *Connection) (id int, kind byte, base int, ok bool) {
+	switch c := cx.Conn.(type) {
+	case *vStressConn:
+		return c.id, c.kind, 0, true
+	case *vSrvConn:
+		return c.id, byte(c.kindTag), 0, true
+	case vPass:
+		if in, ok2 := c.Conn.(*Connection); ok2 {
+			id, kind, _, ok = vStressWho(in)
+			return id, kind, vStressNeed, ok
+		}
+	}
+	return 0, 0, 0, false
+}
+
+type vStressMatcher struct {
+	want byte
+	bad  *atomic.Int64
+}
+
 func (m vStressMatcher) Match(cx *Connection) (bool, error) {
+	start := cx.offset
 	b := make([]byte, vStressNeed)
 	if _, err := io.ReadFull(cx, b); err != nil {
 		return false, err
 	}
-	if sc, ok := cx.Conn.(*vStressConn); ok {
-		if vStressCheck(sc.id, 0, b) >= 0 {
-			m.bad.Add(1)
-		}
-		// MatchingBytes is the window behind the bytes this matcher has already read
-		if vStressCheck(sc.id, cx.offset, cx.MatchingBytes()) >= 0 {
+	if id, kind, base, ok := vStressWho(cx); ok {
+		if vStressCheck(id, kind, base+start, b) >= 0 || vStressCheck(id, kind, base+cx.offset, cx.MatchingBytes()) >= 0 {
 			m.bad.Add(1)
 		}
 	}
-	return b[0] == 'T', nil
+	return b[0] == m.want, nil
 }
 
 type vStressRes struct {
-	checked, bad, reused int
-	first              string
+	checked, bad, reused, wrongVerdict int
+	first, firstVerdict                string
+}
+
+func vStressRoutes(bad *atomic.Int64, withA bool, terminal func(name string) NextHandler) RouteList {
+	mk := func(want byte, h NextHandler) *Route {
+		return &Route{matcherSets: MatcherSets{{vStressMatcher{want, bad}}}, middleware: []Middleware{wrapHandler(h)}}
+	}
+	wrap := NextHandlerFunc(func(cx *Connection, next Handler) error {
+		if _, err := io.ReadFull(cx, make([]byte, vStressNeed)); err != nil {
+			return err
+		}
+		return next.Handle(cx.Wrap(vPass{cx}))
+	})
+	rl := RouteList{}
+	if withA {
+		rl = append(rl, mk('A', terminal("A")))
+	} else {
+		rl = append(rl, mk('a', terminal("never")))
+	}
+	return append(rl, mk('W', wrap), mk('w', terminal("W2")), mk('B', terminal("B")))
+}
+
+var vStressKinds = []byte{'A', 'W', 'B', 'Z', 'W', 'A'}
+
+func vStressClient(cl net.Conn, st []byte) {
+	_ = cl.SetWriteDeadline(time.Now().Add(8 * time.Second))
+	if _, err := cl.Write(st[:4]); err == nil {
+		time.Sleep(100 * time.Microsecond)
+		_, _ = cl.Write(st[4:])
+	}
+	_ = cl.SetReadDeadline(time.Now().Add(8 * time.Second))
+	_, _ = io.Copy(io.Discard, cl)
+	_ = cl.Close()
 }
 
 func vStressServer(procs, nconn, ln int, r *vRng) vStressRes {
@@ -303,52 +372,55 @@ func vStressServer(procs, nconn, ln int, r *vRng) vStressRes {
 	var mu sync.Mutex
 	res := vStressRes{}
 	bases := map[*byte]int{}
-	var hw sync.WaitGroup
-	handler := NextHandlerFunc(func(cx *Connection, _ Handler) error {
-		sc := cx.Conn.(*vStressConn)
-		if cap(cx.buf) > 0 {
+	verdict := map[int]string{}
+	terminal := func(name string) NextHandler {
+		return NextHandlerFunc(func(cx *Connection, _ Handler) error {
+			id, kind, base, _ := vStressWho(cx)
 			mu.Lock()
-			bases[unsafe.SliceData(cx.buf[:1])]++
-			mu.Unlock()
-		}
-		time.Sleep(time.Duration(sc.id%7) * 150 * time.Microsecond)
-		buf := make([]byte, ln)
-		_ = cx.Conn.SetReadDeadline(time.Now().Add(5 * time.Second))
-		n, _ := io.ReadFull(cx, buf)
-		at := vStressCheck(sc.id, 0, buf[:n])
-		mu.Lock()
-		res.checked++
-		if at >= 0 || n != ln {
-			res.bad++
-			if res.first == "" {
-				res.first = fmt.Sprintf("connection %d read %d of %d bytes, first foreign byte at offset %d: got %x want %x", sc.id, n, ln, at, buf[max(at, 0):min(max(at, 0)+8, n)], vStressStream(sc.id, ln)[max(at, 0):min(max(at, 0)+8, ln)])
+			verdict[id] = name
+			if cap(cx.buf) > 0 {
+				bases[unsafe.SliceData(cx.buf[:1])]++
 			}
-		}
+			mu.Unlock()
+			time.Sleep(time.Duration(id%7) * 150 * time.Microsecond)
+			buf := make([]byte, ln-base)
+			_ = cx.SetReadDeadline(time.Now().Add(5 * time.Second))
+			n, _ := io.ReadFull(cx, buf)
+			at := vStressCheck(id, kind, base, buf[:n])
+			mu.Lock()
+			res.checked++
+			if at >= 0 || n != ln-base {
+				res.bad++
+				if res.first == "" {
+					a := max(at, 0)
+					res.first = fmt.Sprintf("connection %d (kind %c, route %s) read %d of %d bytes, first foreign byte at stream offset %d: got %x want %x", id, kind, name, n, ln-base, base+at, buf[a:min(a+8, n)], vStressStream(id, kind, ln)[base+a:min(base+a+8, ln)])
+				}
+			}
+			mu.Unlock()
+			return nil
+		})
+	}
+	s := &Server{logger: zap.NewNop()}
+	fallback := HandlerFunc(func(cx *Connection) error {
+		id, _, _, _ := vStressWho(cx)
+		mu.Lock()
+		verdict[id] = "fallback"
+		res.checked++
 		mu.Unlock()
 		return nil
 	})
-	s := &Server{logger: zap.NewNop()}
-	s.compiledRoute = RouteList{&Route{matcherSets: MatcherSets{{vStressMatcher{&matcherBad}}}, middleware: []Middleware{wrapHandler(handler)}}}.
-		Compile(s.logger, 5*time.Second, nopHandler{})
-	var cw sync.WaitGroup
+	s.compiledRoute = vStressRoutes(&matcherBad, true, terminal).Compile(s.logger, 5*time.Second, fallback)
+	var hw, cw sync.WaitGroup
+	kinds := map[int]byte{}
 	for i := 0; i < nconn; i++ {
 		id := 0x0101 + i
+		kind := vStressKinds[r.Intn(len(vStressKinds))]
+		kinds[id] = kind
 		cl, sv := net.Pipe()
 		hw.Add(1)
-		go func() { defer hw.Done(); s.handle(&vStressConn{Conn: sv, id: id}) }()
+		go func() { defer hw.Done(); s.handle(&vStressConn{Conn: sv, id: id, kind: kind}) }()
 		cw.Add(1)
-		split := 1 + r.Intn(ln-1)
-		go func() {
-			defer cw.Done()
-			st := vStressStream(id, ln)
-			_ = cl.SetWriteDeadline(time.Now().Add(5 * time.Second))
-			if _, err := cl.Write(st[:split]); err == nil {
-				_, _ = cl.Write(st[split:])
-			}
-			_ = cl.SetReadDeadline(time.Now().Add(5 * time.Second))
-			_, _ = io.Copy(io.Discard, cl)
-			_ = cl.Close()
-		}()
+		go func() { defer cw.Done(); vStressClient(cl, vStressStream(id, kind, ln)) }()
 		if i%8 == 7 {
 			runtime.Gosched()
 		}
@@ -356,6 +428,18 @@ func vStressServer(procs, nconn, ln int, r *vRng) vStressRes {
 	hw.Wait()
 	cw.Wait()
 	res.bad += int(matcherBad.Load())
+	if matcherBad.Load() > 0 && res.first == "" {
+		res.first = fmt.Sprintf("%d matcher evaluations saw bytes that are not the connection's own", matcherBad.Load())
+	}
+	want := map[byte]string{'A': "A", 'W': "W2", 'B': "B", 'Z': "fallback"}
+	for id, k := range kinds {
+		if verdict[id] != want[k] {
+			res.wrongVerdict++
+			if res.firstVerdict == "" {
+				res.firstVerdict = fmt.Sprintf("connection %d with a kind-%c stream was handled by %q, alone it is handled by %q", id, k, verdict[id], want[k])
+			}
+		}
+	}
 	for _, c := range bases {
 		if c > 1 {
 			res.reused += c - 1
@@ -372,41 +456,41 @@ func vStressListener(procs, nconn, ln int, r *vRng) vStressRes {
 	h := &vHist{}
 	inner := &vInner{ch: make(chan *vSrvConn), tmp: make(chan struct{}, 1), closed: make(chan struct{}), h: h}
 	lw := &ListenerWrapper{logger: zap.NewNop()}
-	// the only route never matches ('X'), so every connection falls through to the wrapped listener
-	never := NextHandlerFunc(func(cx *Connection, next Handler) error { return next.Handle(cx) })
-	lw.compiledRoute = RouteList{&Route{matcherSets: MatcherSets{{vStressFall{&matcherBad}}}, middleware: []Middleware{wrapHandler(never)}}}.
-		Compile(lw.logger, 5*time.Second, listenerHandler{})
+	never := func(name string) NextHandler {
+		return NextHandlerFunc(func(cx *Connection, next Handler) error { return next.Handle(cx) })
+	}
+	// no terminal route matches 'F' or what is left of a 'W' stream after its second stage fails:
+	// kinds F and V fall through to the wrapped listener, V after having been re-wrapped and re-matched
+	lw.compiledRoute = RouteList{
+		&Route{matcherSets: MatcherSets{{vStressMatcher{'a', &matcherBad}}}, middleware: []Middleware{wrapHandler(never("a"))}},
+		&Route{matcherSets: MatcherSets{{vStressMatcher{'V', &matcherBad}}}, middleware: []Middleware{wrapHandler(NextHandlerFunc(func(cx *Connection, next Handler) error {
+			if _, err := io.ReadFull(cx, make([]byte, vStressNeed)); err != nil {
+				return err
+			}
+			return next.Handle(cx.Wrap(vPass{cx}))
+		}))}},
+		&Route{matcherSets: MatcherSets{{vStressMatcher{'b', &matcherBad}}}, middleware: []Middleware{wrapHandler(never("b"))}},
+	}.Compile(lw.logger, 5*time.Second, listenerHandler{})
 	ln2 := lw.WrapListener(inner)
 	var cw sync.WaitGroup
-	ids := map[*vSrvConn]int{}
-	var imu sync.Mutex
 	for i := 0; i < nconn; i++ {
 		id := 0x0201 + i
+		kind := []byte{'F', 'V', 'F'}[r.Intn(3)]
 		cl, sv := net.Pipe()
-		srv := &vSrvConn{Conn: sv, id: id, h: h}
-		imu.Lock()
-		ids[srv] = id
-		imu.Unlock()
+		srv := &vSrvConn{Conn: sv, id: id, h: h, kindTag: int(kind)}
 		cw.Add(1)
-		split := 1 + r.Intn(ln-1)
 		go func() {
 			defer cw.Done()
 			inner.ch <- srv
-			st := vStressStream(id, ln)
-			st[0] = 'F'
-			_ = cl.SetWriteDeadline(time.Now().Add(8 * time.Second))
-			if _, err := cl.Write(st[:split]); err == nil {
-				_, _ = cl.Write(st[split:])
-			}
-			_ = cl.SetReadDeadline(time.Now().Add(8 * time.Second))
-			_, _ = io.Copy(io.Discard, cl)
-			_ = cl.Close()
+			vStressClient(cl, vStressStream(id, kind, ln))
 		}()
 	}
 	// slow consumer: accept everything first (with small pauses), read afterwards
 	type acc struct {
-		c  net.Conn
-		sv *vSrvConn
+		c        net.Conn
+		sv       *vSrvConn
+		id, base int
+		kind     byte
 	}
 	var accepted []acc
 	bases := map[*byte]int{}
@@ -419,11 +503,26 @@ func vStressListener(procs, nconn, ln int, r *vRng) vStressRes {
 		if cx == nil {
 			continue
 		}
-		sv, _ := cx.Conn.(*vSrvConn)
+		id, kind, base, ok := vStressWho(cx)
+		if !ok {
+			continue
+		}
+		var sv *vSrvConn
+		for in := cx; in != nil; {
+			if v, ok := in.Conn.(*vSrvConn); ok {
+				sv = v
+				break
+			}
+			if p, ok := in.Conn.(vPass); ok {
+				in, _ = p.Conn.(*Connection)
+			} else {
+				break
+			}
+		}
 		if cap(cx.buf) > 0 {
 			bases[unsafe.SliceData(cx.buf[:1])]++
 		}
-		accepted = append(accepted, acc{c, sv})
+		accepted = append(accepted, acc{c, sv, id, base, kind})
 		if len(accepted)%5 == 0 {
 			time.Sleep(200 * time.Microsecond)
 		}
@@ -435,24 +534,23 @@ func vStressListener(procs, nconn, ln int, r *vRng) vStressRes {
 		rw.Add(1)
 		go func(a acc) {
 			defer rw.Done()
-			buf := make([]byte, ln)
+			buf := make([]byte, ln-a.base)
 			_ = a.c.SetReadDeadline(time.Now().Add(5 * time.Second))
 			n, _ := io.ReadFull(a.c, buf)
-			id := a.sv.id
-			if n > 0 && buf[0] == 'F' {
-				buf[0] = 'T'
-			}
-			at := vStressCheck(id, 0, buf[:n])
+			at := vStressCheck(a.id, a.kind, a.base, buf[:n])
 			mu.Lock()
 			res.checked++
-			if at >= 0 || n != ln {
+			if at >= 0 || n != ln-a.base {
 				res.bad++
 				if res.first == "" {
-					res.first = fmt.Sprintf("connection %d handed over to the wrapped listener read %d of %d bytes, first foreign byte at offset %d: got %x want %x", id, n, ln, at, buf[max(at, 0):min(max(at, 0)+8, n)], vStressStream(id, ln)[max(at, 0):min(max(at, 0)+8, ln)])
+					x := max(at, 0)
+					res.first = fmt.Sprintf("connection %d (kind %c) handed over to the wrapped listener read %d of %d bytes, first foreign byte at stream offset %d: got %x want %x", a.id, a.kind, n, ln-a.base, a.base+at, buf[x:min(x+8, n)], vStressStream(a.id, a.kind, ln)[a.base+x:min(a.base+x+8, ln)])
 				}
 			}
 			mu.Unlock()
-			a.sv.released.Store(true)
+			if a.sv != nil {
+				a.sv.released.Store(true)
+			}
 			_ = a.c.Close()
 		}(a)
 	}
@@ -460,27 +558,15 @@ func vStressListener(procs, nconn, ln int, r *vRng) vStressRes {
 	_ = ln2.Close()
 	cw.Wait()
 	res.bad += int(matcherBad.Load())
+	if matcherBad.Load() > 0 && res.first == "" {
+		res.first = fmt.Sprintf("%d matcher evaluations saw bytes that are not the connection's own", matcherBad.Load())
+	}
 	for _, c := range bases {
 		if c > 1 {
 			res.reused += c - 1
 		}
 	}
 	return res
-}
-
-type vStressFall struct{ bad *atomic.Int64 }
-
-func (m vStressFall) Match(cx *Connection) (bool, error) {
-	b := make([]byte, vStressNeed)
-	if _, err := io.ReadFull(cx, b); err != nil {
-		return false, err
-	}
-	if sv, ok := cx.Conn.(*vSrvConn); ok {
-		if vStressCheck(sv.id, cx.offset, cx.MatchingBytes()) >= 0 || b[0] != 'F' || vStressCheck(sv.id, 1, b[1:]) >= 0 {
-			m.bad.Add(1)
-		}
-	}
-	return b[0] == 'X', nil
 }
 
 // ---- (c) access discipline ----------------------------------------------------------------------
@@ -603,15 +689,22 @@ func TestVerifC08(t *testing.T) {
 	if vThorough() {
 		cfgs = append(cfgs, cfg{1, 256}, cfg{4, 512}, cfg{16, 512}, cfg{2, 128})
 	}
-	for _, c := range cfgs {
+	for ci, c := range cfgs {
 		ln := 64 + r.Intn(1400)
+		if ci%3 == 1 {
+			// the first prefetch fills the pooled chunk exactly (len == cap) and more follows
+			ln = prefetchChunkSize + 4 + 40 + r.Intn(200)
+		}
 		rs := vStressServer(c.procs, c.nconn, ln, r)
 		out.Case(fmt.Sprintf("CStress \"server\" %d %d %d %d", c.procs, c.nconn, rs.checked, rs.bad), fmt.Sprintf("stress/server/procs=%d", c.procs), rs.reused > 0, map[string]any{"reused_arrays": rs.reused, "stream_len": ln})
 		if rs.bad > 0 {
 			out.Fail("C08:pool:cross-talk-server", rs.first, map[string]any{"gomaxprocs": c.procs, "connections": c.nconn, "stream_len": ln, "bad": rs.bad, "checked": rs.checked})
 		}
+		if rs.wrongVerdict > 0 {
+			out.Fail("C08:verdict:depends-on-other-connections", rs.firstVerdict, map[string]any{"gomaxprocs": c.procs, "connections": c.nconn, "wrong": rs.wrongVerdict})
+		}
 		if rs.checked != c.nconn {
-			out.Fail("C08:stress:incomplete-server", fmt.Sprintf("only %d of %d connections reached the handler", rs.checked, c.nconn), nil)
+			out.Fail("C08:stress:incomplete-server", fmt.Sprintf("only %d of %d connections reached a handler", rs.checked, c.nconn), nil)
 		}
 		rl := vStressListener(c.procs, c.nconn, ln, r)
 		out.Case(fmt.Sprintf("CStress \"listener\" %d %d %d %d", c.procs, c.nconn, rl.checked, rl.bad), fmt.Sprintf("stress/listener/procs=%d", c.procs), rl.reused > 0 || rl.checked > 1, map[string]any{"stream_len": ln})
